@@ -49,7 +49,12 @@ func runProgram(c *Case, fsName string, r0 uint64) (trace []string, segs string,
 	}
 	db.VerifSetHashSeed(c.Cfg.HashSeed)
 	rec := func(f string, a ...interface{}) { trace = append(trace, fmt.Sprintf(f, a...)) }
-	for _, op := range c.Ops {
+	step := func(op Op) (stop bool) {
+		defer func() {
+			if e := recover(); e != nil {
+				rec("%s PANIC %v", op.Kind, e)
+			}
+		}()
 		switch op.Kind {
 		case "put":
 			rec("put %s", errStr(db.Put(op.K, op.V)))
@@ -74,7 +79,7 @@ func runProgram(c *Case, fsName string, r0 uint64) (trace []string, segs string,
 			rec("close %s", errStr(db.Close()))
 			db, e = pogreb.Open(dir, o)
 			if e != nil {
-				return trace, "", e
+				return true
 			}
 			rec("reopen")
 		case "crashreopen", "crashtorn", "crashtornhdr", "failopen":
@@ -96,9 +101,15 @@ func runProgram(c *Case, fsName string, r0 uint64) (trace []string, segs string,
 			}
 			db, e = pogreb.Open(dir, o)
 			if e != nil {
-				return trace, "", e
+				return true
 			}
 			rec("recovered %s", observe(db, c.Pool))
+		}
+		return false
+	}
+	for _, op := range c.Ops {
+		if step(op) || e != nil {
+			return trace, "", e
 		}
 	}
 	rec("final %s", observe(db, c.Pool))
@@ -125,7 +136,10 @@ func runProgram(c *Case, fsName string, r0 uint64) (trace []string, segs string,
 func (h *harness) runFSDiff(seed uint64, cases, nops int) {
 	r := &rng{s: seed*0x9e3779b97f4a7c15 + 171717}
 	for i := 0; i < cases; i++ {
+		saved := h.prop
+		h.prop = "C17"
 		c := h.genCase(r, fmt.Sprintf("fsdiff-%d-%d", seed, i), "ops", nops)
+		h.prop = saved
 		h.emit("case %s", c.Name)
 		type res struct {
 			trace []string
